@@ -700,8 +700,8 @@ class Sequence(ExprList, SeqDomain):
         if self.isempty or h.isempty:
             return self.__class__(())
 
-        Lx = x.extent
-        Lh = h.extent
+        Lx = len(x)
+        Lh = len(h)
         Ly = Lx + Lh - 1
 
         if mode == 'full':
